@@ -467,8 +467,9 @@ class InstanceValue(Object):
     def _attrs(self):
         # type: () -> Attributes
         # python looks into the instance first, then into the classes
-        self.__dict__['_attrs'] = {}  # see ClassObject._attrs
-        attrs = {}  # type: Attributes
+        # see ClassObject._attrs; collecting the assigned attributes may come
+        # back here to look up a method: the class part is there by then
+        attrs = self.__dict__['_attrs'] = {}  # type: Attributes
         for b in reversed(self.cls.bases):
             o = b.call(self.ctx)
             if o and not isinstance(o, InstanceValue):
